@@ -58,3 +58,17 @@ Theorem C19_text_lines_indented :
     = flat_map (fun l => repeat_str ind L ++ l ++ NL) ls.
 Proof. exact text_only_lines_str. Qed.
 Print Assumptions C19_text_lines_indented.
+
+(* the same without the restriction to indentation strings free of line feeds: at the start of a line the
+   writer lets the indentation through as it is unless it begins with line feeds (those are stripped at
+   offset 0 outside preserved content); `eff_indent` is that effective indentation, equal to the plain one
+   whenever the indentation does not start with a line feed *)
+From Delb.Ws Require Import WrapTextOnlyLF.
+
+Theorem C19_text_lines_indented_any : forall ind width req, (1 <= width)%Z ->
+  forall L st rp aft k, core k -> w_off st = 0%Z ->
+  exists ls, wrap_text (esc_text k) width = Some ls /\
+    render_list (fst (w_text ind width req L st rp None k None aft))
+    = flat_map (fun l => eff_indent ind (w_pres st) L ++ l ++ NL) ls.
+Proof. exact text_only_lines_str_lf. Qed.
+Print Assumptions C19_text_lines_indented_any.
